@@ -218,7 +218,10 @@ func (c *client) PushBlobChunkedResume(ctx context.Context, repo string, id stri
 		}
 		resp, err := c.do(req, http.StatusNoContent)
 		if err != nil {
-			return nil, fmt.Errorf("cannot recover chunk offset: %w", err)
+			// Note: like the other client methods, return the error as is:
+			// any text added in front of it stops the next server
+			// from recognizing (and trimming) the status and code prefixes.
+			return nil, err
 		}
 		location, err = locationFromResponse(resp)
 		if err != nil {
